@@ -19,6 +19,12 @@ code below (independent of pyxform) and compared with ConvertResult.warnings:
   disabled              rows with a value in the `disabled` column (row number).
   dup-id-header         settings sheet with both form_id and id_string headers.
 
+Row-level triggers are additionally placed at every position relative to rows of related kinds (all sequences up to
+length 3/4 over small alphabets of selects with/without or_other, images with/without max-pixels, metadata types,
+labelled/unlabelled containers, disabled cells, labelled/unlabelled choices incl. repeated names) in seven container
+layouts and several language set-ups: a warning may depend on the presence of its trigger only, not on what precedes or
+follows it (see order_cases).
+
 Where the property text does not settle the expectation (aliased / single-colon headers, field-list groups, media on
 groups, unknown language codes, two-letter language names ...) the oracle does not care either way.
 """
@@ -727,6 +733,192 @@ LANG_LABELS = ["English (en)", "English", "French (fr)", "Eng (eng)", "Klingon (
                "Swahili  (sw)", "en", "xx", "Hawaiian (haw)", "Français (fr)", "English (english)", "Spanish (es) "]
 
 
+# ---- row-level triggers at EVERY position relative to other rows of related kinds (small-scope exhaustive)
+#
+# A row-level warning must depend on the presence of its trigger only: not on which related rows (same question family,
+# with or without the trigger) come before or after it, nor on the container the row sits in. Each family below takes
+# a small alphabet of related row kinds -- trigger rows, near misses of the same family, an unrelated filler -- and
+# enumerates ALL sequences over it up to a small length; every sequence is laid out in several container shapes.
+
+# (survey languages, choices languages)
+ORDER_TRANS = {"2": ((L1, L2), (L1, L2)), "1s": ((L1,), (DEFAULT,)), "1c": ((DEFAULT,), (L2,)), "d+1": ((DEFAULT, L1), (DEFAULT, L1)),
+               "0": ((DEFAULT,), (DEFAULT,))}
+N_PLACEMENTS = 7
+
+# token -> list of row specs; a spec is ("q", type, label?, parameters, disabled) | ("open", kind, label?, disabled) | ("close", kind)
+ORDER_TOKENS = {
+    # selects: with / without or_other, both cardinalities, choices from a file; the two lists differ
+    "oo1": [("q", "select_one l1 or_other", True, None, None)],
+    "oom": [("q", "select_multiple l2 or_other", True, None, None)],
+    "s1": [("q", "select_one l2", True, None, None)],
+    "sm": [("q", "select_multiple l1", True, None, None)],
+    "sf": [("q", "select_one_from_file places.csv", True, None, None)],
+    "tx": [("q", "text", True, None, None)],
+    # images with / without max-pixels, other media
+    "i0": [("q", "image", True, None, None)],
+    "i1": [("q", "image", True, "max-pixels=640", None)],
+    "ia": [("q", "image", True, "app=com.example.cam", None)],
+    "au": [("q", "audio", True, None, None)],
+    # metadata: deprecated and supported kinds
+    "ms": [("q", "simserial", False, None, None)],
+    "mu": [("q", "subscriberid", False, None, None)],
+    "md": [("q", "deviceid", False, None, None)],
+    # containers with / without a label (each holds one question)
+    "g0": [("open", "group", False, None), ("q", "text", True, None, None), ("close", "group")],
+    "g1": [("open", "group", True, None), ("q", "text", True, None, None), ("close", "group")],
+    "r0": [("open", "repeat", False, None), ("q", "text", True, None, None), ("close", "repeat")],
+    "r1": [("open", "repeat", True, None), ("q", "integer", True, None, None), ("close", "repeat")],
+    # the disabled column: filled (row kept / row dropped) or empty; on a container too
+    "dn": [("q", "text", True, None, "no")],
+    "dy": [("q", "text", True, None, "yes")],
+    "d-": [("q", "integer", True, None, None)],
+    "gd": [("open", "group", True, "no"), ("q", "text", True, None, None), ("close", "group")],
+}
+ORDER_FAMILIES = {
+    "select": ("oo1", "oom", "s1", "sm", "sf", "tx"),
+    "image": ("i0", "i1", "ia", "au"),
+    "meta": ("ms", "mu", "md", "tx"),
+    "control": ("g0", "g1", "r0", "r1", "tx"),
+    "disabled": ("dn", "dy", "d-", "gd"),
+}
+# one trigger of every row-level warning + one near miss of each: all orders of the triggers, near misses interleaved
+ORDER_MIX_TRIGGERS = ("oo1", "i0", "ms", "g0", "dn")
+ORDER_MIX_NEAR = ("s1", "i1", "md", "g1", "d-")
+
+
+def order_wb(tokens, placement, trans, choice_rows=None, same_names=False):
+    """Survey made of the row blocks of `tokens`, in that order, laid out according to `placement`:
+    0 flat; 1 all in one group; 2 all in one repeat; 3 first at top level, the rest in a group; 4 all but the last in a
+    repeat, the last after it; 5 block i at depth i (group > repeat > group ...); 6 block i precedes the container that
+    holds block i+1. Containers added by the layout are labelled and never empty.
+    choice_rows: [(list name, labelled?)] in sheet order; same_names: every choice of a list carries the same name
+    (duplicates switched on in the settings)."""
+    slangs, clangs = ORDER_TRANS[trans]
+    hs = ["type", "name"] + [_hdr("label", l) for l in slangs] + ["parameters", "disabled"]
+    rows, cnt = [], [0]
+
+    def put(t, label, parameters=None, disabled=None):
+        cnt[0] += 1
+        rows.append([t, f"n{cnt[0]}"] + [(f"{label} {l}" if label else None) for l in slangs] + [parameters, disabled])
+
+    def emit(block):
+        for spec in block:
+            if spec[0] == "q":
+                put(spec[1], "Q" if spec[2] else None, spec[3], spec[4])
+            elif spec[0] == "open":
+                put(f"begin {spec[1]}", "Inner" if spec[2] else None, None, spec[3])
+            else:
+                rows.append([f"end {spec[1]}"] + [None] * (len(hs) - 1))
+
+    def opn(kind):
+        put(f"begin {kind}", "Block")
+
+    def cls(kind):
+        rows.append([f"end {kind}"] + [None] * (len(hs) - 1))
+
+    def filler():
+        put("note", "N")
+
+    blocks = [ORDER_TOKENS[t] for t in tokens]
+    if placement == 0:
+        for b in blocks:
+            emit(b)
+    elif placement in (1, 2):
+        kind = "group" if placement == 1 else "repeat"
+        opn(kind)
+        for b in blocks:
+            emit(b)
+        cls(kind)
+    elif placement == 3:
+        emit(blocks[0])
+        opn("group")
+        for b in blocks[1:]:
+            emit(b)
+        if len(blocks) == 1:
+            filler()
+        cls("group")
+    elif placement == 4:
+        opn("repeat")
+        for b in blocks[:-1]:
+            emit(b)
+        if len(blocks) == 1:
+            filler()
+        cls("repeat")
+        emit(blocks[-1])
+    elif placement == 5:
+        kinds = [("group", "repeat")[i % 2] for i in range(len(blocks))]
+        for k, b in zip(kinds, blocks):
+            opn(k)
+            emit(b)
+        for k in reversed(kinds):
+            cls(k)
+    else:
+        kinds = [("repeat", "group")[i % 2] for i in range(len(blocks))]
+        for k, b in zip(kinds, blocks):
+            emit(b)
+            opn(k)
+        filler()
+        for k in reversed(kinds):
+            cls(k)
+    wb = WB()
+    wb["survey"] = (hs, rows)
+    ch = ["list_name", "name"] + [_hdr("label", l) for l in clangs]
+    if choice_rows is None:
+        choice_rows = [(ln, True) for ln in ("l1", "l1", "l2", "l2")]
+    wb["choices"] = (ch, [[ln, "c" if same_names else f"c{i}"] + [(f"C{i} {l}" if lab else None) for l in clangs]
+                          for i, (ln, lab) in enumerate(choice_rows)])
+    if same_names:
+        wb["settings"] = (["allow_choice_duplicates"], [["yes"]])
+    return wb
+
+
+def _sequences(alphabet, max_len):
+    return [seq for k in range(1, max_len + 1) for seq in itertools.product(alphabet, repeat=k)]
+
+
+def order_cases(tier, seed, add):
+    thorough = tier == "thorough"
+    k = seed  # rotates layouts / language set-ups over the sequences; every sequence is converted at least once
+    for fam, alphabet in ORDER_FAMILIES.items():
+        if fam == "select":
+            trs, max_len = ("2", "1s", "1c", "d+1"), (4 if thorough else 3)
+        else:
+            trs, max_len = ("0", "2"), (4 if thorough else 3)
+        for seq in _sequences(alphabet, max_len):
+            k += 1
+            if thorough:
+                plan = [((k + j) % N_PLACEMENTS, tr) for j, tr in enumerate(trs)]
+                if len(seq) <= 3:
+                    plan = [(p, tr) for p in range(N_PLACEMENTS) for tr in trs]
+            else:
+                plan = [(k % N_PLACEMENTS, trs[k % len(trs)])]
+                if len(seq) <= 2:
+                    plan.append(((k + 3) % N_PLACEMENTS, trs[(k + 1) % len(trs)]))
+            if fam == "select" and (thorough or k % 3 == 0):
+                plan.append(((k + 1) % N_PLACEMENTS, "0"))  # no translation anywhere: the or_other warning must stay silent
+            for p, tr in plan:
+                add(f"{fam} {'>'.join(seq)} layout {p} languages {tr}", f"order-{fam}", wb=order_wb(seq, p, tr))
+    # all orders of one trigger of each kind, near misses in between / around
+    for pi, perm in enumerate(itertools.permutations(ORDER_MIX_TRIGGERS)):
+        near = ORDER_MIX_NEAR[pi % 5:] + ORDER_MIX_NEAR[:pi % 5]
+        shapes = [perm, tuple(x for pair in zip(perm, near) for x in pair), tuple(x for pair in zip(near, perm) for x in pair)]
+        for si, seq in enumerate(shapes if thorough else [shapes[pi % 3]]):
+            k += 1
+            add(f"mix {'>'.join(seq)}", "order-mix", wb=order_wb(seq, (k if thorough else pi) % N_PLACEMENTS, ("2", "1s", "0")[(pi + si) % 3]))
+    # choices rows: labelled / unlabelled rows of two lists in every order
+    ckinds = (("l1", True), ("l1", False), ("l2", True), ("l2", False))
+    for seq in _sequences(ckinds, 5 if thorough else 3):
+        k += 1
+        lists = {ln for ln, _ in seq}
+        toks = tuple(t for t, ln in (("s1", "l2"), ("sm", "l1")) if ln in lists) or ("tx",)
+        for tr in (("0", "2", "1c") if thorough else (("0", "2", "1c")[k % 3],)):
+            add(f"choices rows {[(ln, int(lab)) for ln, lab in seq]} languages {tr}", "order-choices",
+                wb=order_wb(toks, k % 3, tr, choice_rows=list(seq)))
+            if len(seq) > len(lists):  # some list has several rows: also with the same name on all of them
+                add(f"choices rows {[(ln, int(lab)) for ln, lab in seq]} languages {tr}, one name per list", "order-choices",
+                    wb=order_wb(toks, k % 3, tr, choice_rows=list(seq), same_names=True))
+
+
 def cases(tier, seed):
     rnd = random.Random(seed)
     thorough = tier == "thorough"
@@ -839,6 +1031,8 @@ def cases(tier, seed):
         wb = form_choices_translations({"label": (DEFAULT,)})
         wb["settings"] = (hs, [vals])
         add(f"settings headers {hs}", "dupid", wb=wb)
+    # 8. row-level triggers at every position relative to rows of related kinds, in every container shape
+    order_cases(tier, seed, add)
     return out
 
 
